@@ -240,7 +240,10 @@ class DNSOutgoing:
         """Writes a UTF-8 string of a given length to the packet"""
         utfstr = s.encode('utf-8')
         length = len(utfstr)
-        if length > 64:
+        if length > 63:
+            # https://datatracker.ietf.org/doc/html/rfc1035#section-2.3.4
+            # labels are limited to 63 octets; 64 would set a bit that
+            # decoders read as part of a compression pointer
             raise NamePartTooLongException
         self._write_byte(length)
         self.write_string(utfstr)
